@@ -6,9 +6,11 @@ pub mod c05;
 pub mod c06;
 pub mod c07;
 pub mod c08;
+pub mod c09;
 pub mod c13;
 pub mod c15;
 pub mod c17;
+pub mod c18;
 pub mod c20;
 
 pub fn lookup(prop: &str) -> Option<fn(&Ctx)> {
@@ -19,9 +21,11 @@ pub fn lookup(prop: &str) -> Option<fn(&Ctx)> {
         "C06" => c06::run,
         "C07" => c07::run,
         "C08" => c08::run,
+        "C09" => c09::run,
         "C13" => c13::run,
         "C15" => c15::run,
         "C17" => c17::run,
+        "C18" => c18::run,
         "C20" => c20::run,
         _ => return None,
     })
